@@ -91,6 +91,7 @@ FS = 50.0
 POOL_SINGLE = {
     "SSIcov": (SSIcov, dict(br=6, ordmax=6), dict(order=4)),
     "SSIdat": (SSIdat, dict(br=6, ordmax=6), dict(order=4)),
+    "SSIcovU": (SSIcov, dict(br=6, ordmax=6, calc_unc=True, nb=10), dict(order=4)),  # default criteria incl. the covariance limit, next to algorithms that never use it
     "pLSCF": (pLSCF, dict(ordmax=4, nxseg=128), dict(order=2)),
     "FDD": (FDD, dict(nxseg=128), dict(DF=1.0)),
     "EFDD": (EFDD, dict(nxseg=256), dict(DF1=1.0, DF2=4.0, npmax=6)),
@@ -106,7 +107,7 @@ POOL_MS = {
 SEL = [6.0]
 DEFAULTS = {"pov": 0.5, "method_SD": "per"}  # library defaults of the fields the pool leaves unset
 # the alternative parameter set a user may switch to between two runs of the same object (one field per class)
-ALT = {"SSIcov": dict(br=7), "SSIdat": dict(br=7), "pLSCF": dict(pov=0.0), "FDD": dict(pov=0.0), "EFDD": dict(method_SD="cor"), "FSDD": dict(pov=0.25)}
+ALT = {"SSIcov": dict(br=7), "SSIdat": dict(br=7), "SSIcovU": dict(br=7), "pLSCF": dict(pov=0.0), "FDD": dict(pov=0.0), "EFDD": dict(method_SD="cor"), "FSDD": dict(pov=0.25)}
 
 
 def _data(kind, seed=7):
